@@ -153,7 +153,9 @@ func (csm *ClusterShardMapper) mapMstShards(s *influxql.Measurement, csming *Clu
 	// Retrieve the list of shards for this database. This list of
 	// shards is always the same regardless of which measurement we are
 	// using.
-	for _, source := range sources {
+	for k, source := range sources {
+		// sources[k] names measurements[k]: each measurement is pruned with its own shard key and shard layout
+		mst := measurements[k]
 		var shardInfosByPtID map[uint32][]executor.ShardInfo
 		if shardInfos := csming.ShardMap[source]; shardInfos != nil {
 			shardInfosByPtID = shardInfos
@@ -180,14 +182,14 @@ func (csm *ClusterShardMapper) mapMstShards(s *influxql.Measurement, csming *Clu
 			// a measurement-level shard key can differ from shard group to shard group (ALTER ... SHARDKEY)
 			groupShardKey := shardKeyInfo
 			if groupShardKey == nil {
-				groupShardKey = measurements[0].GetShardKey(groups[i].ID)
+				groupShardKey = mst.GetShardKey(groups[i].ID)
 			}
 			aliveShardIdxes := csm.MetaClient.GetAliveShards(s.Database, &groups[i], true)
 			var shs []meta2.ShardInfo
 			if opt.HintType == hybridqp.FullSeriesQuery || opt.HintType == hybridqp.SpecificSeriesQuery {
-				shs, csming.seriesKey = groups[i].TargetShardsHintQuery(measurements[0], groupShardKey, condition, opt, aliveShardIdxes)
+				shs, csming.seriesKey = groups[i].TargetShardsHintQuery(mst, groupShardKey, condition, opt, aliveShardIdxes)
 			} else {
-				shs = groups[i].TargetShards(measurements[0], groupShardKey, condition, aliveShardIdxes)
+				shs = groups[i].TargetShards(mst, groupShardKey, condition, aliveShardIdxes)
 			}
 
 			csm.updateShardInfosByPtID(s, g, shs, &shardInfosByPtID)
